@@ -706,6 +706,20 @@ func (w *Proxy) checkC14() {
 		// (a response of an earlier attempt that MOSN discarded in favour of a retry may have passed
 		// the send filters as well: k complete passes, 1 <= k <= 1 + answered attempts)
 		if len(sendFilters) > 0 && key != "" {
+			// a send filter that stops the chain (verdict "sendstop", effective once its receive side ran)
+			// ends the pass: the filters after it do not see the response, which is delivered all the same
+			sendFilters := sendFilters
+			for i, name := range sendFilters {
+				ran := false
+				for _, g := range got {
+					ran = ran || g == name
+				}
+				if verdict[name] == "sendstop" && ran {
+					sendFilters = sendFilters[:i+1]
+					w.Stats["c14_send_chain_stopped"]++
+					break
+				}
+			}
 			answered := 0
 			for _, up := range r.Upstream {
 				if len(up.Sent) > 0 {
